@@ -202,10 +202,10 @@ MUTANTS += [
          new="        masked_layers.append(masked_linear if i < 2 else linear)\n"),
     # ------------------------------------------------------------------ C18
     dict(id="c18_revert_F2_placeholder_zero", prop="C18", file=SP,
-         old="        y_robust = jnp.where(in_bounds, y, sum(self.interval) / 2)  # To avoid nans\n",
+         old="        y_robust = jnp.where(in_bounds, y, self.interval[0])  # To avoid nans\n",
          new="        y_robust = jnp.where(in_bounds, y, 0)  # To avoid nans\n"),
     dict(id="c18_spline_no_robust_substitution", prop="C18", file=SP,
-         old="        y_robust = jnp.where(in_bounds, y, sum(self.interval) / 2)  # To avoid nans\n",
+         old="        y_robust = jnp.where(in_bounds, y, self.interval[0])  # To avoid nans\n",
          new="        y_robust = y\n"),
     dict(id="c18_log_prob_nan_not_mapped", prop="C18", file=DI,
          old="        return jnp.where(jnp.isnan(lps), -jnp.inf, lps)\n",
@@ -214,7 +214,7 @@ MUTANTS += [
          old="        x_arctan = jnp.arctanh(jnp.where(is_linear, 0, y))  # avoid nan grad at |y|=1\n",
          new="        x_arctan = jnp.arctanh(y)\n"),
     dict(id="c18_spline_derivative_unmasked_input", prop="C18", file=SP,
-         old="        x_robust = jnp.where(in_bounds, x, sum(self.interval) / 2)  # To avoid nans\n        k = jnp.maximum(jnp.searchsorted(x_pos, x_robust) - 1, 0)\n",
+         old="        x_robust = jnp.where(in_bounds, x, self.interval[0])  # To avoid nans\n        k = jnp.maximum(jnp.searchsorted(x_pos, x_robust) - 1, 0)\n",
          new="        x_robust = x\n        k = jnp.maximum(jnp.searchsorted(x_pos, x_robust) - 1, 0)\n"),
     dict(id="c18_leaky_tanh_logdet_sqrt", prop="C18", file=TH,
          old="        log_grads = jnp.where(\n            jnp.abs(y) >= jnp.tanh(self.max_val),\n            jnp.log(self.linear_grad),\n            _tanh_log_grad(x),\n        )\n        return x, -jnp.sum(log_grads)\n",
